@@ -24,7 +24,7 @@ func init() {
 // unclassified loop in the same function is reported.
 var loopTable = map[string][]string{
 	"(*Context).integerPower":   {"b is halved (Rsh 1) every iteration until zero"},
-	"(*Decimal).Reduce":         {"i divided by 10000 per iteration", "i divided by 10 per iteration (i != 0)", "coefficient divided by ten per iteration; exits at the first non-zero digit"},
+	"(*Decimal).Reduce":         {"i divided by 10000 per iteration", "i divided by 10 per iteration (i != 0)", "coefficient divided by ten per iteration; exits at the first non-zero digit", "non-zero coefficient divided by 10**1000 per iteration; exits at the first non-zero remainder (a thousand zeros at a time)"},
 	"(*constWithPrecision).get": {"precision divided by 16 per iteration", "precision halved per iteration"},
 	"(Condition).String":        {"one set bit of r is cleared per iteration (closed 12-bit set, C02.R1)"},
 	"(*Context).Sqrt":           {"p = min(2p-2, maxp) strictly increases from 3 to maxp; the exit does not depend on any wrapper result"},
